@@ -224,6 +224,18 @@ def run_case(case, opts):
         elif kind == "groundrep":
             if not case.get("groundrep"):       # only where the RepeatedFluentArg finding is part of the property's record
                 continue
+            if case.get("trajrep") and rng.random() < 0.5:
+                # an unrelated observation with one object twice in a fluent is read in between (stimulus only: what it
+                # returns is not used; reading it must leave every other object of the process alone)
+                o = objs[0][0]
+                text = f"((:init (= (h {o} {o}) 1.0) (r))\n(operator: (noise {o}))\n(:state (= (h {o} {o}) 2.0) (r)))\n"
+                tp = pylib.write_tmp(text, ".trajectory")
+                try:
+                    TrajectoryParser(dom, prob if rng.random() < 0.5 else None).parse_trajectory(tp)
+                except Exception:  # noqa: BLE001
+                    pass
+                finally:
+                    os.unlink(tp)
             # grounding (only) of a call that puts one object twice into a fluent term: the grounding itself is
             # judged under the RepeatedFluentArg finding; what matters here is that it leaves everything else alone
             found = None
